@@ -1,5 +1,6 @@
 (* Line-protocol driver of the MiniGluon reference semantics (coq/theories/Lang/Eval.v).
-   stdin : one program per line, `(prog (types …) <expr> <type>)` as written by
+   stdin : one program per line, `(prog (types …) <expr> <type>)` (a line `=` repeats the previous
+           program: the harness runs each program in several styles / settings) as written by
            harness/src/mg/sexp.rs (types and the result type are ignored: tags are resolved).
    stdout: one canonical outcome per line, in exactly the format of
            harness/src/mg/run.rs `Outcome::canonical`:
@@ -163,7 +164,7 @@ let () =
   try
     while true do
       let line = input_line stdin in
-      if line <> "" && line = !last_in then print_endline !last_out   (* same program, other style *)
+      if line = "=" || (line <> "" && line = !last_in) then print_endline !last_out   (* same program, other style *)
       else if line <> "" then begin
         let out =
           try
